@@ -42,6 +42,21 @@ Definition reject_fresh (s : st) (w : wid) (u : wupdate) : bool :=
                    end
       | None => true
       end
+  | UFailed t _ =>
+      (* a task the scheduler placed as a multi-node task has a multi-node request: the model takes
+         the solver's answer as an unconstrained witness and [map_mn_sets] does not look at the
+         request, while [task_failed] branches on the REQUEST; the real solver creates multi-node
+         placements only for multi-node request classes *)
+      match find_task (c_tasks (core_of s)) t with
+      | Some tk => match t_state tk with
+                   | RunningMN _ => match nth_error (c_rqs (core_of s)) (N.to_nat (t_rq tk)) with
+                                    | Some r => rq_is_mn r
+                                    | None => true
+                                    end
+                   | _ => true
+                   end
+      | None => true
+      end
   | _ => true
   end.
 
